@@ -55,6 +55,8 @@ pub struct CheckDef {
     /// enumerating checks: evidence counts sub-runs (one per injected fault /
     /// damaged image / configuration) rather than cases
     pub count_subruns: bool,
+    /// reach probes that a run of this check is expected to hit at least once
+    pub expect_probes: &'static [&'static str],
 }
 
 pub fn all() -> Vec<CheckDef> {
